@@ -145,9 +145,14 @@ CO_ERR COSdoResponse(CO_SDO *srv)
     } else if (srv->Blk.State == BLK_DNWAIT) {
         if ((cmd & 0xE3) == 0xC1) {
             result = COSdoEndDownloadBlock(srv);
-        } else {
+        } else if (srv->Buf.Num == 0) {
+            /* last block is written to object: next block */
             srv->Blk.State = BLK_DOWNLOAD;
             result = COSdoDownloadBlock(srv);
+        } else {
+            /* last segment is received: only the end is allowed */
+            COSdoAbort(srv, CO_SDO_ERR_CMD);
+            COSdoAbortReq(srv);
         }
         return (result);
     } else if (srv->Blk.State == BLK_UPLOAD) {
@@ -644,22 +649,33 @@ CO_ERR COSdoEndDownloadBlock(CO_SDO *srv)
     cmd = CO_GET_BYTE(srv->Frm, 0);
     if ((cmd & 0x01) != 0) {
         n      = (cmd & 0x1C) >> 2;
-        len    = ((uint32_t)srv->Buf.Num - n);
-        result = COObjWrBufCont(srv->Obj, srv->Node, srv->Buf.Start, len);
-        if (result != CO_ERR_NONE) {
-            srv->Node->Error = CO_ERR_SDO_WRITE;
-            COSdoAbort(srv, CO_SDO_ERR_TOS);
+        if (srv->Buf.Num == 0) {
+            /* no last segment received */
+            COSdoAbort(srv, CO_SDO_ERR_CMD);
+            result = CO_ERR_SDO_ABORT;
+        } else if ((7u - n) > srv->Blk.LastValid) {
+            /* last segment holds more data than the object */
+            COSdoAbort(srv, CO_SDO_ERR_LEN_HIGH);
+            result = CO_ERR_SDO_ABORT;
+        } else {
+            len    = ((uint32_t)srv->Buf.Num - n);
+            result = COObjWrBufCont(srv->Obj, srv->Node, srv->Buf.Start, len);
+            if (result != CO_ERR_NONE) {
+                srv->Node->Error = CO_ERR_SDO_WRITE;
+                COSdoAbort(srv, CO_SDO_ERR_TOS);
+                result = CO_ERR_SDO_ABORT;
+            } else {
+                CO_SET_BYTE(srv->Frm, 0xA1, 0);
+                CO_SET_WORD(srv->Frm, 0, 1);
+                CO_SET_BYTE(srv->Frm, 0, 3);
+                CO_SET_LONG(srv->Frm, 0, 4);
+            }
         }
-        CO_SET_BYTE(srv->Frm, 0xA1, 0);
-        CO_SET_WORD(srv->Frm, 0, 1);
-        CO_SET_BYTE(srv->Frm, 0, 3);
-        CO_SET_LONG(srv->Frm, 0, 4);
 
         srv->Blk.State = BLK_IDLE;
         srv->Buf.Cur   = srv->Buf.Start;
         srv->Buf.Num   = 0;
         srv->Obj       = 0;
-        result         = CO_ERR_NONE;
     }
     return (result);
 }
@@ -676,6 +692,8 @@ CO_ERR COSdoDownloadBlock(CO_SDO *srv)
     if ((cmd & 0x7F) == (srv->Blk.SegCnt + 1)) {
         /* check, that we need at least 1 byte out of the payload */
         if (srv->Blk.Len > 0) {
+            /* number of bytes in this segment which fit into the object */
+            srv->Blk.LastValid = (srv->Blk.Len >= 7) ? 7 : (uint8_t)srv->Blk.Len;
             for (i = 0; i < 7; i++) {
                 *(srv->Buf.Cur) = CO_GET_BYTE(srv->Frm, 1 + i);
                 srv->Buf.Cur++;
@@ -735,6 +753,19 @@ CO_ERR COSdoDownloadBlock(CO_SDO *srv)
 
             srv->Blk.SegCnt = 0;
             result          = CO_ERR_NONE;
+
+            /* write acknowledged segments to object: the repeated
+             * segments start at the begin of the buffer
+             */
+            if (srv->Buf.Num > 0) {
+                len = (uint32_t)srv->Buf.Num;
+                err = COObjWrBufCont(srv->Obj, srv->Node, srv->Buf.Start, len);
+                if (err != CO_ERR_NONE) {
+                    srv->Node->Error = CO_ERR_SDO_WRITE;
+                }
+                srv->Buf.Cur = srv->Buf.Start;
+                srv->Buf.Num = 0;
+            }
         }
     }
     return (result);
